@@ -276,8 +276,8 @@ def batch(core, mod, prop, seed, n, args, scratch, t0):
         print(f"HARNESS-ERROR: run {det.get('first_divergence')} is not deterministic across interpreters",
               file=sys.stderr)
         return 2
-    if truncated:
-        print("HARNESS-ERROR: wall-clock safety cap tripped before all runs completed", file=sys.stderr)
+    if truncated and not replay_paths:
+        print(f"HARNESS-ERROR: batch stopped before all runs completed ({truncated})", file=sys.stderr)
         return 2
     print(f"{prop} {args.tier}: runs={total.runs} ops={total.ops} distinct_nontrivial_histories={len(total.hist)} "
           f"features={len(total.features)} known_findings={len(known_seen)} violations={len(new_violations)} "
@@ -323,7 +323,7 @@ def write_evidence(core, mod, prop, seed, args, total, truncated, det, known_see
             "determinism_sample": det,
             "stale_extensions": stale,
             "rebuilt_extensions": BUILD_INFO[1],
-            "truncated": truncated,
+            "truncated": truncated or False,
             "known_findings_seen": {k: {"text": v[0], "first_run_index": v[1]} for k, v in sorted(known_seen.items())},
             "violation_signatures": sorted({v["sig"] for _, v in new_violations}),
             "replay_files": [p for p, _, _ in replay_paths],
